@@ -14,3 +14,4 @@ import DvidModel.Props.C10
 import DvidModel.Props.C19
 import DvidModel.Props.C16
 import DvidModel.Props.C13
+import DvidModel.Props.C14
